@@ -24,6 +24,30 @@ def run_optimizer(sc):
     return exit_name(code) if outcome == "ok" else outcome
 
 
+class _InfEvaluator(AffineEvaluator):
+    """The last realization whose unperturbed evaluation succeeds returns +infinity as its first objective."""
+
+    def __call__(self, variables, context):
+        res = super().__call__(variables, context)
+        ok = [r for r in range(len(self.nanF)) if not self.nanF[r]]
+        if ok and context.perturbations is None:
+            rows = (context.realizations == ok[-1]) & ~np.isnan(res.objectives[:, 0])
+            res.objectives[rows, 0] = np.inf
+        return res
+
+
+def inf_flags(sc):
+    import warnings
+    from ropt.ensemble_evaluator import EnsembleEvaluator
+    DesignPlugin.design = sc["design"]
+    ee = EnsembleEvaluator(build_config(sc), None, _InfEvaluator(sc), graddrive.manager())
+    with warnings.catch_warnings():
+        warnings.simplefilter("ignore")
+        res, outcome = outcome_of(lambda: ee.calculate(np.array(sc["x"], dtype=np.float64), compute_functions=True, compute_gradients=False))
+    flags = [] if not res else [bool(b) for b in res[0].realizations.failed_realizations]
+    return {"ev": "InfFlags", "R": sc["R"], "nanF": sc["nanF"], "outcome": outcome, "failedObs": flags}
+
+
 def drive(sc):
     e, _, _ = eval_grad(sc, "both")
     trace = [e]
@@ -31,6 +55,7 @@ def drive(sc):
     trace.append(e2)
     keys = ("V", "mask", "x", "R", "P", "rw", "ow", "est", "flt", "a", "b", "minsucc", "pms", "merged", "nanF", "nanP")
     trace.append({"ev": "OptRun", **{k: sc[k] for k in keys}, "exit": run_optimizer(sc)})
+    trace.append(inf_flags(sc))
     feats = features(sc, e)
     nfail = sum(1 for c in sc["nanF"] if c) + sum(1 for row in sc["nanP"] for c in row if c)
     succ_pos = any(sc["rw"][r] > 0 and not sc["nanF"][r] for r in range(sc["R"]))
